@@ -261,6 +261,49 @@ def cross_group_history(ctx):
         c.time = old
 
 
+
+def foreign_root_history(ctx):
+    """key material never leaks between cache objects: a blob made under a DIFFERENT root key registered under the same identifier (another
+    cache in the same process — a test fixture, another tenant, a rogue DC's reply held by a cache-less call) must not decrypt on a cache
+    that holds the real root key, whatever other caches did before (any L0, sync and async, both layouts)"""
+    import asyncio, uuid
+    import dpapi_ng, dpapi_ng._client as c
+    from dpapi_ng import _gkdi as g
+    rk = uuid.UUID("d778c271-9025-9a82-f6dc-b8960b8ad8c5")
+    real_root, other_root = bytes(range(5, 69)), bytes(range(105, 169))
+    sid = "S-1-5-21-1-2-3-1103"
+    old = c.time
+    try:
+        for hn in ("SHA512", "SHA256"):
+            for l0 in (360, 361):
+                for use_async in (False, True):
+                    c.time = type("T", (), {"time_ns": staticmethod(lambda l0=l0: clientsim.time_ns_for(l0, 17, 13))})
+                    a = dpapi_ng.KeyCache()
+                    a.load_key(other_root, root_key_id=rk, kdf_parameters=g.KDFParameters(hn).pack())
+                    forged = dpapi_ng.ncrypt_protect_secret(b"made under another root key", sid, root_key_identifier=rk, cache=a)
+                    c.time = type("T", (), {"time_ns": staticmethod(lambda: clientsim.time_ns_for(361, 20, 0))})
+                    b = dpapi_ng.KeyCache()
+                    b.load_key(real_root, root_key_id=rk, kdf_parameters=g.KDFParameters(hn).pack())
+                    mine = dpapi_ng.ncrypt_protect_secret(b"the real secret", sid, root_key_identifier=rk, cache=b)
+                    for wire in (forged, der.to_trailing(forged)):
+                        try:
+                            got = asyncio.run(dpapi_ng.async_ncrypt_unprotect_secret(wire, cache=b)) if use_async else dpapi_ng.ncrypt_unprotect_secret(wire, cache=b)
+                            out = "done " + hx(got)
+                        except Exception as e:  # noqa
+                            out = "err " + canon_exc(e)
+                        ctx.count("real:foreign_root_history")
+                        if out.startswith("done "):
+                            ctx.violation("a blob made under a different root key decrypts on a cache holding the real root key (key material shared between cache objects)",
+                                          {"scenario": "foreign_root_history", "hash": hn, "forged_l0": l0, "async": use_async}, out[:80], "error")
+                            return
+                    back = dpapi_ng.ncrypt_unprotect_secret(mine, cache=b)
+                    if back != b"the real secret":
+                        ctx.violation("after the history the cache no longer decrypts its own blob", {"scenario": "foreign_root_history", "hash": hn}, hx(back)[:60], "the plaintext")
+                        return
+    finally:
+        c.time = old
+
+
 def big_contents(ctx):
     """large plaintexts whose length sits on the chunk sizes a streaming decryptor would use (4 KiB … 128 KiB, ± one AES block), with
     bits of the ciphertext body and of the tag flipped (real crypto, both layouts): a chunked implementation must still verify the tag"""
@@ -425,6 +468,7 @@ def run(ctx):
     big_contents(ctx)
     mode_confusion(ctx)
     cross_group_history(ctx)
+    foreign_root_history(ctx)
 
 
 def search(ctx, broken, disagreements):
@@ -436,6 +480,12 @@ def replay(ctx, payload):
     if v.get("scenario") == "big_contents":
         c2 = type(ctx)(ctx.prop, "quick", ctx.seed)
         big_contents(c2)
+        for x in c2.violations:
+            print(" ", x["what"], x["input"], x["observed"])
+        return not c2.violations
+    if v.get("scenario") == "foreign_root_history":
+        c2 = type(ctx)(ctx.prop, "quick", ctx.seed)
+        foreign_root_history(c2)
         for x in c2.violations:
             print(" ", x["what"], x["input"], x["observed"])
         return not c2.violations
